@@ -41,8 +41,9 @@ Qed.
 Lemma pair_validb_spec parts c d : pair_validb parts c d = true -> pair_valid parts c d.
 Proof.
   unfold pair_validb, pair_valid. intros H. apply orb_true_iff in H as [H|H].
-  - left. apply andb_true_iff in H as [H1 H2]. apply beqb_eq in H1. split; [exact H1|].
-    apply (list_eqb_eq part_eqb _ _ part_eqb_eq). exact H2.
+  - left. apply andb_true_iff in H as [H1 H2]. apply beqb_eq in H1. subst d. split; [reflexivity|].
+    unfold degenerateb in H2. unfold degenerate. destruct (adjust_borders (parts c c)) as [qs|]; [|discriminate].
+    exists qs. split; [reflexivity|]. rewrite forallb_forall in H2. rewrite Forall_forall. intros p Hp. apply part_eqb_eq. apply H2. exact Hp.
   - right. apply tilingb_spec. exact H.
 Qed.
 
